@@ -33,7 +33,8 @@ META = {
                      "silent_assignments": 400000, "rejected_assignments": 400000, "reads": 500000,
                      "raising_handler_calls": 400000, "oldnew_checked": 4000000,
                      "unread_first_assignments": 100000, "quiet_sets_ok": 250000,
-                     "quiet_sets_rejected": 50000},
+                     "quiet_sets_rejected": 50000, "layout:split": 250000,
+                     "other_trait_assignments": 700000},
     },
     "assumptions": [
         "value pools avoid objects whose == and != are mutually inconsistent (the statement's "
@@ -238,7 +239,32 @@ def run_history(ctx, h, legacy_errs, obs_errs):
     def bound_handler(self, obj, name, old, new):
         rec("otcm", old, new)
     ns["bound_handler"] = bound_handler
-    K = MetaHasTraits("K", (HasTraits,), ns)
+    # a second trait with its own comparison mode, assigned at random points: static anytrait
+    # machinery is shared by all traits of a class
+    ymode = rng.choice([ComparisonMode.none, ComparisonMode.identity, ComparisonMode.equality])
+    ns["y"] = Any(comparison_mode=ymode)
+    # where the magic-named handlers come from: the class body itself, or a different base
+    # class than the one declaring the trait (a mixin, plain or HasTraits, either base order)
+    layout = rng.choice(["flat", "flat", "mixin-plain", "mixin-traits", "mixin-first", "sub"])
+    if layout == "flat":
+        K = MetaHasTraits("K", (HasTraits,), ns)
+    else:
+        handler_names = [k for k in ns if (k.startswith("_x_") and k != "_x_default") or k == "_anytrait_changed"]
+        decl = {k: v for k, v in ns.items() if k not in handler_names}
+        hand = {k: ns[k] for k in handler_names}
+        Model = MetaHasTraits("Model", (HasTraits,), decl)
+        if layout == "sub":
+            K = MetaHasTraits("K", (Model,), hand)          # handlers supplied by a subclass
+        else:
+            if layout == "mixin-traits":
+                Mixin = MetaHasTraits("Mixin", (HasTraits,), hand)
+            else:
+                Mixin = type("Mixin", (object,), hand)
+            bases = (Mixin, Model) if layout == "mixin-first" else (Model, Mixin)
+            K = MetaHasTraits("K", bases, {})
+        if rng.random() < 0.3:
+            K = MetaHasTraits("K2", (K,), {})               # a further subclass inherits it all
+    cfg_layout = layout
     o = K()
     otcs = [lambda: rec("otc"), lambda new: rec("otc", M, new), lambda name, new: rec("otc", M, new),
             lambda obj, name, new: rec("otc", M, new), lambda obj, name, old, new: rec("otc", old, new)]
@@ -250,9 +276,13 @@ def run_history(ctx, h, legacy_errs, obs_errs):
     o.observe(ob1, "x")
     o.observe(ob2, "x")
     P = pool(kind)
+    x_shared = X()
     trace = []
     cfg = {"kind": kind, "mode": mode.name, "static_arity": st_ar, "otc_arity": otc_ar,
-           "raiser": raiser, "exc": exc.__name__, "suffix": sfx}
+           "raiser": raiser, "exc": exc.__name__, "suffix": sfx, "layout": cfg_layout,
+           "ymode": ymode.name}
+    ctx.count("layout:" + ("flat" if cfg_layout == "flat" else "split"))
+    ypool = [1, 1, 1.0, "a", None, None, x_shared, x_shared, [1], [1]]
 
     def viol(complaint, msg):
         ctx.violation("%s/%s/%s" % (complaint, "event" if is_event else kind, mode.name if not is_event else "-"),
@@ -265,7 +295,20 @@ def run_history(ctx, h, legacy_errs, obs_errs):
     unread = kind in KNOWN_DEFAULT and rng.random() < 0.6
     for step in range(12):
         del LOG[:], legacy_errs[:], obs_errs[:]
-        opk = rng.choice(["set", "set", "set", "read", "set", "setq"])
+        opk = rng.choice(["set", "set", "set", "read", "set", "setq", "sety"])
+        if step == 0 and rng.random() < 0.5:
+            opk = "sety"          # another trait of the class fires first
+        if opk == "sety":
+            trace.append("set y")
+            try:
+                o.y = rng.choice(ypool)
+            except Exception as e:
+                return viol("assignment-raised:" + type(e).__name__, "assigning the other trait let %r escape" % (e,))
+            ctx.count("other_trait_assignments")
+            if [e for e in LOG if e[0] != "any"] or any(True for e in LOG if e[0] == "any"):
+                # recorders only log changes of x (the anytrait recorder filters by name)
+                return viol("other-trait-notified-x-handlers", "assigning y called %r" % [e[0] for e in LOG])
+            continue
         if unread and step == 0:
             opk = "set"
             ctx.count("unread_first_assignments")
